@@ -20,7 +20,10 @@ RULE = ("tables: every block over {-1,0,1/2,2} up to length 3 (4 thorough) x eve
         "None,0..len+1, lag lists built from reflection coefficients in (-1,1) (step-up), from data, arbitrary "
         "indefinite rational lists, singular lists (|k|=1, zero energy) and orders below/at/beyond len(r); "
         "kautocor / kcovar: exhaustive small blocks x orders plus random blocks of length 2..10(12), orders 1..len-1 "
-        "and beyond; call histories (harness/C10_hist.py): 2-4 calls of kautocor / kcovar / levinson_durbin / acorr / "
+        "and beyond; scale (the property is scale free, proved in Prop.v): a sample of the levinson / kautocor / kcovar "
+        "cases repeated with the lags / block times 1e-7, 1e-15, 1e-30, 1e+12, 2^-40, 2^-100, 2^+40, -1e-7 (exact "
+        "rationals), reflection coefficients a hair (1e-12, 2^-40, 1e-7) inside the unit circle, and float runs on inputs "
+        "times 2^-100..2^+100 compared bit for bit with the unscaled float run; call histories (harness/C10_hist.py): 2-4 calls of kautocor / kcovar / levinson_durbin / acorr / "
         "lag_matrix / toeplitz in one process on block objects that are reused and refilled in place (list, deque, "
         "len/getitem object; slice and item writes, same and other length) or rebuilt with equal contents (tuple, fresh "
         "list), descending / equal / ascending / 0 / omitted orders, the caller modifying in place what earlier calls "
@@ -221,7 +224,7 @@ def nontrivial_tab(c, o):
 
 
 # ---------------------------------------------------------------------------------------------- levinson_durbin
-def gen_lev(tier, rng):
+def _gen_lev_base(tier, rng):
   maxlen = 3 if tier == "quick" else 4
   for n in range(0, maxlen + 1):
     for r in itertools.product(SMALL_L, repeat=n):
@@ -279,7 +282,7 @@ STRATS_A = ["kautocor", "kacorr", "kautocorrelation", "kauto_correlation"]
 STRATS_C = ["kcovar", "kcov", "kcovariance"]
 
 
-def gen_kac(tier, rng):
+def _gen_kac_base(tier, rng):
   maxlen = 3 if tier == "quick" else 4
   for n in range(0, maxlen + 1):
     for blk in itertools.product(SMALL_L, repeat=n):
@@ -339,7 +342,7 @@ def _kcovar_returns(x, p):
   return True
 
 
-def gen_kcv(tier, rng):
+def _gen_kcv_base(tier, rng):
   maxlen = 3 if tier == "quick" else 4
   for n in range(0, maxlen + 1):
     for blk in itertools.product(SMALL_L, repeat=n):
@@ -385,6 +388,100 @@ def lit_kcv(c, o):
 
 
 
+
+# ---------------------------------------------------------------------------------------------- scale (class l)
+# The property is scale free: levinson_durbin(c * r) has the coefficients of levinson_durbin(r) and c times its error
+# (c**2 for a block scaled by c), proved in Prop.v.  Every filter family therefore repeats a sample of its cases with the
+# lags / the block multiplied by very small and very large factors (exact rationals; the per-call model and the
+# normal equations are evaluated on the scaled input as on any other), and levinson_durbin gets reflection
+# coefficients a hair inside the unit circle (regular, though the error energy all but vanishes).
+SCALES = [("1e-7", Fraction(1, 10 ** 7)), ("1e-15", Fraction(1, 10 ** 15)), ("1e-30", Fraction(1, 10 ** 30)),
+          ("1e+12", Fraction(10 ** 12)), ("2^-40", Fraction(1, 2 ** 40)), ("2^-100", Fraction(1, 2 ** 100)),
+          ("2^+40", Fraction(2 ** 40)), ("-1e-7", Fraction(-1, 10 ** 7))]
+
+
+def _with_scales(base, key, n_quick, n_thorough, negative_ok):
+  def gen(tier, rng):
+    pool_r, pool_e = [], []
+    for c in base(tier, rng):
+      yield c
+      if len(c[key]) >= 2 and any(v[0] for v in c[key]):
+        (pool_e if "exh" in c["tags"] else pool_r).append(c)
+    for i in range(n_quick if tier == "quick" else n_thorough):
+      pool = pool_r if (pool_r and rng.random() < 0.8) or not pool_e else pool_e
+      c = rng.choice(pool)
+      name, f = SCALES[i % len(SCALES)]
+      if f < 0 and not negative_ok:
+        name, f = "1e-7", -f
+      d = dict(c)
+      d[key] = [fr(unfr(v) * f) for v in c[key]]
+      d["tags"] = [t for t in c["tags"] if not t.startswith(("len=", "p="))] + ["scale=" + name]
+      yield d
+  return gen
+
+
+def _gen_lev_hair(tier, rng):
+  for c in _gen_lev_base(tier, rng):
+    yield c
+  for i in range(24 if tier == "quick" else 240):
+    p = rng.randrange(1, 5)
+    ks = [Fraction(rng.randrange(-9, 10), 10) for _ in range(p)]
+    eps = [Fraction(1, 10 ** 12), Fraction(1, 2 ** 40), Fraction(1, 10 ** 7)][i % 3]
+    ks[rng.randrange(p)] = rng.choice([-1, 1]) * (1 - eps)
+    r = stepup(ks, rng.choice([1, 3, Fraction(1, 10 ** 9)]))
+    order = rng.choice([None, p, p, p + 1])
+    yield {"r": [fr(v) for v in r], "order": order, "tags": ["hair-inside-unit-circle", order_tag(order, len(r))]}
+
+
+gen_lev = _with_scales(_gen_lev_hair, "r", 64, 640, True)      # a lag list may be negated: the theorem covers it
+gen_kac = _with_scales(_gen_kac_base, "blk", 48, 480, True)
+gen_kcv = _with_scales(_gen_kcv_base, "blk", 48, 480, True)
+
+
+# ---------------------------------------------------------------------------------------------- scale, float runs
+# The same call on float inputs and on the inputs times a power of two (an exact operation in binary floating point):
+# coefficients must agree bit for bit, the error by the factor (corr); a filter must come back whenever the unscaled
+# call returns one (holds).  Exponents -100..+100 keep every intermediate far from overflow / subnormals.
+FS_EXP = [-100, -50, -23, 40, 100]
+
+
+def gen_fs(tier, rng):
+  for i in range(90 if tier == "quick" else 900):
+    fn = ["lev", "kac", "kcv"][i % 3]
+    n = rng.randrange(3, 9)
+    x = [Fraction(rng.randrange(-16, 17), 8) for _ in range(n)]
+    if fn == "lev":
+      lags = rng.randrange(2, min(n, 5) + 1)
+      vals = py_acorr(x, lags)
+      order = rng.choice([None, lags - 1, rng.randrange(1, lags), lags + 1])
+    else:
+      vals = x
+      order = rng.choice([1, 2, 2, 3, min(4, n - 1)])
+    yield {"fn": fn, "vals": [fr(v) for v in vals], "order": order, "exp": FS_EXP[(i // 3) % len(FS_EXP)],
+           "tags": ["float", fn, "2^%d" % FS_EXP[(i // 3) % len(FS_EXP)]]}
+
+
+def run_fs(c):
+  import audiolazy, math
+  f = {"lev": audiolazy.levinson_durbin, "kac": audiolazy.lpc.kautocor, "kcv": audiolazy.lpc.kcovar}[c["fn"]]
+  base = [float(unfr(p)) for p in c["vals"]]
+  assert [Fraction(v) for v in base] == [unfr(p) for p in c["vals"]], "harness: not a float"
+  scaled = [math.ldexp(v, c["exp"]) for v in base]
+  call = lambda xs: obs_filter((lambda: f(xs)) if c["order"] is None else (lambda: f(xs, c["order"])))
+  return {"base": call(base), "scaled": call(scaled)}
+
+
+def lit_fs(c, o):
+  if "base" not in o:
+    o = {"base": {"raise": o.get("raise", "?")}, "scaled": {"raise": "harness"}}
+  sc = Fraction(2) ** c["exp"]
+  return "(FSC %s %s %s %s)" % (L.nat(1 if c["fn"] == "lev" else 2), q(fr(sc)), lit_fobs(o["base"]), lit_fobs(o["scaled"]))
+
+
+def nontrivial_fs(c, o):
+  return "num" in o.get("base", {}) and len(o["base"]["num"]) >= 2
+
+
 import C10_hist as _hist   # call histories (harness/C10_hist.py)
 
 IMPORTS = "From AL Require Import C10.Model C10.Spec C10.Check."
@@ -394,6 +491,7 @@ FAMILIES = {
                  gen_tabz, run_tab, lit_tabz, nontrivial_tab),
   "hist": Family("hist", IMPORTS, "hcase", "corr_hist", "holds_hist", _hist.gen_hist, _hist.run_hist, _hist.lit_hist,
                  _hist.nontrivial_hist),
+  "fs": Family("fs", IMPORTS, "fscase", "corr_fs", "holds_fs", gen_fs, run_fs, lit_fs, nontrivial_fs),
   "lev": Family("lev", IMPORTS, "lcase", "corr_lev", "holds_lev", gen_lev, run_lev, lit_lev, nontrivial_filter),
   "kac": Family("kac", IMPORTS, "acase", "corr_kac", "holds_kac", gen_kac, run_kac, lit_kac, nontrivial_filter),
   "kcv": Family("kcv", IMPORTS, "ccase", "corr_kcv", "holds_kcv", gen_kcv, run_kcv, lit_kcv, nontrivial_filter),
